@@ -5,7 +5,7 @@ set -e
 cd "$(dirname "$0")"
 mkdir -p h30
 for f in h31/*.go; do
-  case "$f" in *_gen.go) continue;; esac
+  case "$f" in *_gen.go|*_only31.go) continue;; esac
   sed -e 's/h31/h30/g; s/gocvss31/gocvss30/g; s/go-cvss\/31/go-cvss\/30/g; s/CVSS31/CVSS30/g; s/CVSS:3\.1/CVSS:3.0/g; s/v3\.1/v3.0/g; s/"v31_/"v30_/g' "$f" > "h30/$(basename "$f")"
 done
 for pkg in h20 h30 h31 h40; do
